@@ -391,6 +391,25 @@ func TestCheckBinderRetry(t *testing.T) {
 	})
 }
 
+// IsBinderReplayFile tells whether the replay file at path holds a binder-half case.
+func IsBinderReplayFile(path string) bool {
+	if path == "" {
+		return false
+	}
+	b, err := os.ReadFile(path)
+	if err != nil {
+		return false
+	}
+	var rf kit.ReplayFile
+	if json.Unmarshal(b, &rf) != nil {
+		return false
+	}
+	var probe struct {
+		BinderCase bool `json:"binderCase"`
+	}
+	return json.Unmarshal(rf.Case, &probe) == nil && probe.BinderCase
+}
+
 // ReplayBinder re-executes a saved binder-half case; ok is false when the replay file is not one of this
 // test's (the scheduler-half TestReplay then handles it).
 func ReplayBinder(rf *kit.ReplayFile) (res kit.ReplayResult, ok bool) {
